@@ -176,6 +176,20 @@ NEEDS6 = {
  "C19B": ("src/fixed_priority/floating_nonpreemptive.rs: .take(1 << 16) on the search space", "more than 65 536 releases of the analysed task in one busy window with the worst one late (family hp (2g,3g), tua (g-1,3g-2), g = 65 538)"),
 }
 
+NEEDS7 = {
+ "C01A": ("src/fixed_priority/limited_preemptive.rs: shortcut to the fully preemptive analysis when the analysed task's last segment is <= 1 (drops the blocking bound)", "limited-preemptive FP, analysed task with a last segment of exactly one tick, a lower-priority task with a non-preemptive segment of at least 2"),
+ "C02A": ("src/edf/fully_nonpreemptive.rs: the interfering RBFs are built with a filter that skips never-arriving tasks, the search space still zips them with the unfiltered task list", "an arrival::Never task listed before real tasks, unequal deadlines, at least three real tasks: bound one or two ticks too small"),
+ "C03A": ("src/arrival/propagated.rs steps_iter: skips as many input steps as there are jobs in the jitter window (jobs vs steps)", "a bursty input (simultaneous arrivals) under propagated jitter whose dropped step carries the worst FIFO offset and coincides with no other task's step"),
+ "C04A": ("src/ros2/ecrts19.rs rta_processing_chain: the request bounds of chain prefix and last callback swapped between their windows", "overlapping chain instances and a prefix WCET larger than the last callback's (15 % of random workloads)"),
+ "C05A": ("src/ros2/rr.rs is_higher_callback_priority_than: a.wrapping_sub(b) < 0", "two known priorities at least 2^31 apart (sentinels i32::MIN / i32::MAX) plus a third callback that stretches a processing window"),
+ "C18A": ("src/fixed_priority/fully_nonpreemptive.rs: the search over offsets stops once a job of the analysed task completes no later than the next release (the refuted CAN-analysis assumption), via a Cell shared between two sites", "at least two jobs of the analysed task in the busy window, every earlier one completing by the next release, a later one strictly worse (0.28 % of schedulable systems)"),
+}
+
+def rounds7():
+    for key, val in sorted(NEEDS7.items()):
+        name = f"{key[:3]}-{'M' if key[3] == 'A' else 'N'}"
+        yield key, val, f"/tmp/wt/out7-{key[:3]}", [f"/tmp/seedres/R7{key}.recheck.txt", f"/tmp/seedres/R7{key}.quick.txt"], f"/tmp/seedres/R7{key}.quick.txt", name, 7
+
 def rounds6():
     for key, val in sorted(NEEDS6.items()):
         name = f"{key[:3]}-{'K' if key[3] == 'A' else 'L'}"
@@ -195,7 +209,7 @@ def main():
     root = "/verif/seeded"
     os.makedirs(root, exist_ok=True)
     index = []
-    for key, (change, needs), out, cands, basefile, name, rnd in list(rounds()) + list(rounds4()) + list(rounds5()) + list(rounds6()):
+    for key, (change, needs), out, cands, basefile, name, rnd in list(rounds()) + list(rounds4()) + list(rounds5()) + list(rounds6()) + list(rounds7()):
         pid, v = key[:3], key[3]
         res = None
         # the newest confirmation run wins
